@@ -44,7 +44,7 @@ func runC04(c *Ctx, r *Report) {
 	c04R5(c, r, "C04.R5")
 	c04ProvisionedPointers(c, r, "C04.R10")
 	c01R1(c, r, "C04.R11")      // matchers only ever run frozen: an unfrozen matcher reads from the socket, and one that reads until the data ends (dns over UDP) buffers whatever the peer sends
-	nilFieldContradictions(c, r, "C04.R12", 3, func(fn *ssa.Function) bool { return fn.Pkg != nil && strings.HasPrefix(fn.Pkg.Pkg.Path(), modPath) })
+	nilFieldContradictions(c, r, "C04.R12", 1, func(fn *ssa.Function) bool { return fn.Pkg != nil && strings.HasPrefix(fn.Pkg.Pkg.Path(), modPath) })
 	c04PublishedWithError(c, r, "C04.R13")
 	c08QuicAddr(c, r, "C04.R9") // a panic of the library, reachable with two simultaneous datagrams
 	// R6
@@ -374,6 +374,16 @@ func c04Bounds(c *Ctx, r *Report) {
 				aud++
 				usedAudit[akey] = true
 				r.ok(rule, name, k, c.ipos(in), "audited: "+why)
+				return
+			}
+			// a helper shared by several audited sites: the operand is a parameter, and at every call the argument is
+			// the very operand the caller's audited entry is about
+			if keys, why := auditedThroughCallers(c, fn, in, audited); len(keys) > 0 {
+				aud++
+				for _, ak := range keys {
+					usedAudit[ak] = true
+				}
+				r.ok(rule, name, k, c.ipos(in), fmt.Sprintf("audited at all %d call sites of this helper: %s", len(keys), why))
 				return
 			}
 			r.bad(rule, name, k, c.ipos(in), "not proven and not audited: "+obligation+" - a remote input reaching this site out of range panics the connection goroutine and with it the whole server (or: allocates without bound)")
@@ -1098,4 +1108,68 @@ func sameFieldLoad(a, b ssa.Value) bool {
 		}
 	}
 	return true
+}
+
+// auditedThroughCallers: the operand of the index/slice operation in is a parameter of the unexported helper fn (never
+// used as a value), and for every call of fn the reviewed table has an entry of the calling function (or its home) for
+// the same kind of operation on what is passed for that parameter. Returns the entries used and the first reason.
+func auditedThroughCallers(c *Ctx, fn *ssa.Function, in ssa.Instruction, audited map[string]string) ([]string, string) {
+	if fn.Parent() != nil || token.IsExported(fn.Name()) {
+		return nil, ""
+	}
+	var base ssa.Value
+	kind := ""
+	switch x := in.(type) {
+	case *ssa.Slice:
+		base, kind = x.X, "slice "
+	case *ssa.IndexAddr:
+		base, kind = x.X, "index "
+	case *ssa.Index:
+		base, kind = x.X, "index "
+	default:
+		return nil, ""
+	}
+	for {
+		switch y := base.(type) {
+		case *ssa.ChangeType:
+			base = y.X
+			continue
+		case *ssa.Slice:
+			base = y.X
+			continue
+		}
+		break
+	}
+	par, ok := base.(*ssa.Parameter)
+	if !ok {
+		return nil, ""
+	}
+	idx := paramIndex(fn, par)
+	sites, escapes := c.callSitesOf(fn)
+	if idx < 0 || escapes || len(sites) == 0 {
+		return nil, ""
+	}
+	var keys []string
+	why := ""
+	for _, cs := range sites {
+		if idx >= len(cs.Common().Args) {
+			return nil, ""
+		}
+		site := kind + baseDesc(cs.Common().Args[idx], 0)
+		found := ""
+		for _, h := range c.homeChain(cs.Parent()) {
+			if w, isAud := audited[fname(h)+"|"+site]; isAud {
+				found = fname(h) + "|" + site
+				if why == "" {
+					why = w
+				}
+				break
+			}
+		}
+		if found == "" {
+			return nil, ""
+		}
+		keys = append(keys, found)
+	}
+	return keys, why
 }
